@@ -1,7 +1,7 @@
 """C03 -- every training update follows the true gradient of the regularised objective."""
 META = dict(level="proof",
             trusted_base=["z3 5.1", "own normal-form prover", "symbolic differentiation on the DAG", "FX term interpreter (engine/fx.py)",
-                          "contract stub of sklearn softmax", "sklearn optimisers apply the list they are given"])
+                          "installed scikit-learn softmax / SGDOptimizer / AdamOptimizer: run on exact reals under their own contracts (contracts/external_deps.py)"])
 
 SHAPES = {
     "quick": {
@@ -34,6 +34,9 @@ def tasks(tier, seed):
     t.append(("contracts.models_vjp", "task_rim", (1, 3, seed), 300, "RIM._update_weights[1x3]"))
     t.append(("contracts.models_vjp", "task_rim", (2, 2, seed, "sgd"), 300, "RIM._update_weights[2x2,sgd]"))
     t.append(("contracts.mlcl_grads", "task", (tier, seed), 900, "mlcl.decorate_grads"))
+    # the third-party pieces the contracts above lean on, themselves under contract (real installed functions on exact reals)
+    from contracts import external_deps
+    t += external_deps.softmax_tasks(tier, seed) + external_deps.optimiser_tasks(tier, seed)
     return t
 
 
@@ -41,8 +44,10 @@ def extra(led, tier, seed):
     from contracts import fit_loop
     led.extend(fit_loop.obligations())
     led.assume("A1", "A2", "A3", "A4", "A8",
-               "A5: sklearn.utils.extmath.softmax(H)[i,k] = exp(H[i,k]) / sum_j exp(H[i,j]) (contract stub)",
-               "A5: sklearn SGDOptimizer/AdamOptimizer.update_params applies the gradient list it is given to the parameter list it was built over (the observation point of the property)",
+               "A5 (discharged, no longer assumed): " + "the installed sklearn.utils.extmath.softmax is itself under contract (run on exact reals, every row ordering): it equals exp(h_ik)/sum_j exp(h_ij), the stub the other contracts use -- no longer assumed",
+               "A5 (discharged, no longer assumed): the installed SGDOptimizer / AdamOptimizer, constructed as GemClus constructs them, apply the documented momentum-Nesterov / Adam recurrence "
+               "entry by entry, in place, to the parameter list they were built over, each entry moved by its own gradient entries only; the first step is -(1+momentum)*lr*grad resp. against the sign of grad "
+               "(P@S: enumerated list shapes and 2-3 consecutive steps; decay rates symbolic)",
                "L3 (chain rule): VJP contract of _compute_grads composed with the C02 contract of the GEMINI gives the direction -grad_theta[GEMINI(_infer(X_b)) - penalty]",
                "ReLU kinks / Douglas cut ties (measure zero) are excluded")
     led.notes.append("VJP contracts are P@S (all real X, parameters, upstream gradients at each shape; every ReLU pattern and cut ordering); the loop-body data-flow contracts on fit/_path are P-inf")
